@@ -581,6 +581,7 @@ namespace bloch::runtime {
         m_lastMeasurement.clear();
         m_returnValue = {};
         m_hasReturn = false;
+        m_deferredError.reset();
         m_classTable.clear();
         m_heap.clear();
         m_currentClassCtx = nullptr;
@@ -604,6 +605,11 @@ namespace bloch::runtime {
         auto it = m_functions.find("main");
         if (it != m_functions.end()) {
             call(it->second, {});
+        }
+        if (m_deferredError) {
+            BlochError pending = *m_deferredError;
+            m_deferredError.reset();
+            throw pending;
         }
         if (m_gcThreadStarted) {
             m_stopGc = true;
@@ -1465,10 +1471,22 @@ namespace bloch::runtime {
                 thisVal.objectValue = std::shared_ptr<Object>(obj, [](Object*) {});
                 thisVal.className = cur->name;
                 m_env.back()["this"] = {thisVal, false, true};
-                for (auto& stmt : cur->destructorDecl->body->statements) {
-                    exec(stmt.get());
-                    if (m_hasReturn)
-                        break;
+                try {
+                    for (auto& stmt : cur->destructorDecl->body->statements) {
+                        exec(stmt.get());
+                        if (m_hasReturn)
+                            break;
+                    }
+                } catch (...) {
+                    // Leave no frame behind that still names the object being destroyed.
+                    endFrame();
+                    m_inDestructor = prevDtor;
+                    m_inConstructor = prevCtor;
+                    m_inStaticContext = prevStatic;
+                    m_currentClassCtx = prevClass;
+                    m_hasReturn = savedReturn;
+                    m_returnValue = savedReturnValue;
+                    throw;
                 }
                 endFrame();
                 m_inDestructor = prevDtor;
@@ -1764,6 +1782,11 @@ namespace bloch::runtime {
 #ifdef BLOCH_VERIF
         verifGcPoll();
 #endif
+        if (m_deferredError) {
+            BlochError pending = *m_deferredError;
+            m_deferredError.reset();
+            throw pending;
+        }
         if (m_gcRequested.load())
             runCycleCollector();
         if (!s)
@@ -2415,7 +2438,14 @@ namespace bloch::runtime {
                                  "cannot instantiate static or abstract class '" + cls->name + "'");
             }
             auto deleter = [this](Object* obj) {
-                destroyObject(obj, !obj->skipDestructor);
+                try {
+                    destroyObject(obj, !obj->skipDestructor);
+                } catch (const BlochError& e) {
+                    // Deleters run in noexcept contexts (container and shared_ptr destructors):
+                    // letting the error escape would call std::terminate.
+                    if (!m_deferredError)
+                        m_deferredError = e;
+                }
                 delete obj;
             };
             auto obj = std::shared_ptr<Object>(new Object{}, deleter);
